@@ -150,7 +150,17 @@ Qed.
 
 End Tables.
 
-(** ** a normalising tactic for goals about inverse tables *)
+(** ** a normalising tactic for goals about inverse tables
+
+    [tab H Hh Hq H1 H2] expects [H : tables_inv h q n], its two length
+    components [Hh], [Hq] (any hypothesis [length l = _] of the context is
+    used for rewriting), and its two pointwise components [H1], [H2].  It
+    rewrites every lookup in [<[_:=_]> _], [aswap_remove _ _], [_ <$> _],
+    [last _] into [if decide ...] form, splits the [decide]s, saturates the
+    context with the images of the known lookups under [H1]/[H2] (which
+    gives injectivity through [simplify_eq]) and with their bounds, and
+    closes the leaves with [done]/[lia].  Name the value of every lookup the
+    goal depends on ([destruct (lookup_lt_is_Some_2 ...)]) before calling it. *)
 Lemma lookup_insert_if {A} (l : list A) i j x :
   <[i:=x]> l !! j =
   if decide (i = j) then (if decide (i < length l) then Some x else None) else l !! j.
@@ -161,6 +171,7 @@ Proof.
   - by apply list_lookup_insert_ne.
 Qed.
 
+(* learn [H1 _ _ Hx] for a known lookup [Hx], once *)
 Ltac sat1 H1 :=
   match goal with
   | Hx : _ !! _ = Some _ |- _ =>
@@ -170,6 +181,7 @@ Ltac sat1 H1 :=
       | _ => pose proof (H1 _ _ Hx)
       end
   end.
+(* rewrite with the known lookups *)
 Ltac rw_known :=
   match goal with
   | H : ?l !! ?i = Some _ |- context [?l !! ?i] => rewrite H
@@ -179,6 +191,7 @@ Ltac rw_known :=
       | _ => rewrite H in H'
       end
   end.
+(* learn the bounds of a known lookup of one of the two tables, once *)
 Ltac bnd H :=
   match goal with
   | Hx : _ !! _ = Some _ |- _ =>
